@@ -1,8 +1,8 @@
 SPECIFICATION Spec
 CONSTANTS
  Hs = {h1, h2}
- Threads = 2
- Dev = {"held", "sync_remove"}
+ Threads = 1
+ Dev = {"held"}
 INVARIANTS NeverStuck
 PROPERTY Terminates
 CHECK_DEADLOCK FALSE
